@@ -13,7 +13,7 @@ from props.C07 import gen_sel, _py_sel
 
 REQUIRED_THEOREMS = ['Usid.C20.read_frame', 'Usid.C20.history_independent_reads', 'Usid.C20.write_refused',
                      'Usid.C20.ro_never_changes', 'Usid.C20.rw_write_changes', 'Usid.C20.table_functional']
-RULE = ('[also: every file holds a results group whose source reference is stale] [also: every file holds a dataset that is a Main dataset but for the labels / units of one ancillary] [also: a TARGET group in another file - results group, process, empty dataset written to it and look-ups in it - under every combination of open modes of the source and target files] generator files (a Main dataset with 1-3 dimensions per side, its ancillaries, 0-2 groups of earlier results '
+RULE = ('[also: a process started on a read-only file that already holds its complete results] [also: every file holds a results group whose source reference is stale] [also: every file holds a dataset that is a Main dataset but for the labels / units of one ancillary] [also: a TARGET group in another file - results group, process, empty dataset written to it and look-ups in it - under every combination of open modes of the source and target files] generator files (a Main dataset with 1-3 dimensions per side, its ancillaries, 0-2 groups of earlier results '
         'holding their own Main dataset, a decoy group, plain datasets) opened "r" and "r+"; random sequences (<= 8 '
         'quick, <= 20 thorough) of the 24 read-side operations with generated arguments; after EVERY operation the '
         'SHA-256 of the file on disk (read-only) and a canonical dump of every dataset and attribute through the open '
@@ -147,6 +147,11 @@ def generate(seed, tier):
                     wop['target'] = ['group', 'file', 'dataset', 'main', 'usid'][(j // 2) % 5]
                 cases.append({'kind': 'seq', 'ds': _gen_ds(rng), 'nres': rng.choice([0, 1]), 'mode': mode, 'flag0': False,
                               'ops': [{'name': 'wrap'}, wop]})
+                if w == 'process_init' and mode == 'r':
+                    # ... also on a file that already holds the COMPLETE results of that very process: starting it on a
+                    # read-only target must still be refused (on a writable one the earlier results are handed back)
+                    cases.append({'kind': 'seq', 'ds': _gen_ds(rng), 'nres': 0, 'mode': mode, 'flag0': False,
+                                  'done_proc': True, 'ops': [{'name': 'wrap'}, {'name': w}]})
                 if w == 'write_book_keeping_attrs' and rep == 0:
                     for tg in ('file', 'dataset', 'main', 'usid'):
                         cases.append({'kind': 'seq', 'ds': _gen_ds(rng), 'nres': 0, 'mode': mode, 'flag0': False,
@@ -183,6 +188,9 @@ def _make_file(inp, path):
             gen.write_usid(rg, ds, name='Res')
         decoy = g.create_group('main-Fitting_000')
         decoy.attrs['p'] = 1
+        if inp.get('done_proc'):
+            import procs
+            procs.make_prior_group(g, 'main', 'RowProc', {'zz': 1}, n, mask=[1] * n, source=main)
         # a results group whose recorded source reference no longer resolves (the referenced object was deleted): the
         # source is then recovered from the group's name - a look-up, which must not touch the stale attribute
         sg = g.create_group('main-Old_000')
